@@ -32,6 +32,7 @@ FAMILY_RULES = {
     "method": {"remove_method_call", "remove_method_definition"},
     "removed": {"remove_assertions", "remove_debug_profiling"},
     "blocks": {"remove_empty_do", "remove_unused_if_branch", "filter_after_early_return", "remove_unused_while", "remove_unused_variable"},
+    "shadow06": {"remove_floor_division", "remove_interpolated_string"},
     "shadow16": {"convert_square_root_call"},
     "shadow17": {"remove_assertions", "remove_debug_profiling", "inject_global_value"},
     "scope": {"remove_unused_variable", "rename_variables", "remove_nil_declaration", "group_local_assignment", "convert_local_function_to_assign",
